@@ -74,6 +74,21 @@ pub enum N {
         body: Vec<N>,
     },
     Call(u32),
+    /// `nap MS` (simulated time; no output)
+    Nap(u32),
+    /// a foreground child kills itself: kind 0 `( echo w; selfkill S; echo NEVER )`,
+    /// 1 `v=$(echo w; selfkill S)`, 2 `{ echo w; selfkill S; } | relay 3`
+    SelfKill {
+        kind: u8,
+        sig: u8,
+        word: String,
+    },
+    /// an asynchronous pipeline: `echo w | { relay 3; rc N; } >out & p=$!; wait $p`
+    BgPipe {
+        id: u32,
+        word: String,
+        status: u8,
+    },
     /// a job that sleeps "forever" is killed by the parent and awaited:
     /// `{ echo started; nap 100000; echo NEVER; } >out & p=$!; kill -s SIG $p; wait $p`
     Killed {
@@ -154,16 +169,40 @@ impl Gen<'_> {
                     });
                     out.push(N::Qm);
                 }
-                65..=82 if allow_bg && depth < 2 => {
+                65..=80 if allow_bg && depth < 2 => {
                     self.next_id += 1;
                     let id = self.next_id;
-                    let body = self.block(depth + 1, 3, depth == 0);
+                    let mut body = self.block(depth + 1, 3, depth == 0);
+                    // some jobs take (simulated) time, so that they are still
+                    // running when the parent reaches its `wait`
+                    if self.rng.below(3) == 0 {
+                        let at = self.rng.below(body.len() as u32 + 1) as usize;
+                        body.insert(at, N::Nap(self.rng.range(1, 20)));
+                    }
                     let exit = *self.rng.pick(&[0u8, 1, 2, 3, 9, 77, 130, 255]);
                     out.push(N::Bg { id, body, exit });
                     open.push(id);
                     if self.rng.below(3) == 0 {
                         out.push(N::Qm);
                     }
+                }
+                82 if depth < 3 => {
+                    let word = self.word();
+                    out.push(N::SelfKill {
+                        kind: self.rng.below(3) as u8,
+                        sig: *self.rng.pick(&[9u8, 15, 1]),
+                        word,
+                    });
+                    out.push(N::Qm);
+                }
+                81 if allow_bg && depth < 2 => {
+                    self.next_id += 1;
+                    let word = self.word();
+                    out.push(N::BgPipe {
+                        id: self.next_id,
+                        word,
+                        status: *self.rng.pick(&[0u8, 3, 7]),
+                    });
                 }
                 83 if allow_bg && depth < 2 => {
                     self.next_id += 1;
@@ -425,6 +464,22 @@ fn render(n: &N, out: &mut String, _sep: &str) {
             ));
         }
         N::Def { f, body } => out.push_str(&format!("f{f}() {{ {}}}", inline(body))),
+        N::Nap(ms) => out.push_str(&format!("nap {ms}")),
+        N::SelfKill { kind, sig, word } => {
+            let name = match sig {
+                9 => "KILL",
+                15 => "TERM",
+                _ => "HUP",
+            };
+            match kind {
+                0 => out.push_str(&format!("( echo {word}; selfkill {name}; echo NEVER )")),
+                1 => out.push_str(&format!("sk=$(echo {word}; selfkill {name}; echo NEVER); s=$?; echo \"sk=[$sk]\"; rc $s")),
+                _ => out.push_str(&format!("{{ echo {word}; selfkill {name}; echo NEVER; }} | relay 3")),
+            }
+        }
+        N::BgPipe { id, word, status } => out.push_str(&format!(
+            "echo {word} | {{ relay 3; rc {status}; }} >out_{id} & p_{id}=$!; wait $p_{id}; echo \"?=$?\"; cat out_{id}"
+        )),
         N::Killed { id, sig } => out.push_str(&format!(
             "{{ echo started; nap 100000; echo NEVER; exit 1; }} >out_{id} & p_{id}=$!; kill -s {} $p_{id}; wait $p_{id}",
             match sig {
@@ -458,14 +513,12 @@ struct Job {
 #[derive(Clone, Default)]
 struct Ctx {
     out: Vec<String>,
-    status: u8,
+    status: u32,
     jobs: BTreeMap<u32, Job>,
     funcs: BTreeMap<u32, Vec<N>>,
     pipefail: bool,
     /// ids of jobs whose parent (this context) never waited for them
     unwaited: BTreeSet<u32>,
-    /// exit status beyond 255 (a job killed by a signal), consumed by the next Qm
-    status_wide: Option<u32>,
 }
 
 impl Ctx {
@@ -478,7 +531,6 @@ impl Ctx {
             funcs: self.funcs.clone(),
             pipefail: self.pipefail,
             unwaited: BTreeSet::new(),
-            status_wide: None,
         }
     }
 }
@@ -495,19 +547,16 @@ fn eval(n: &N, cx: &mut Ctx) {
             cx.out.push(w.clone());
             cx.status = 0;
         }
-        N::Rc(k) => cx.status = *k,
+        N::Rc(k) => cx.status = *k as u32,
         N::Qm => {
-            match cx.status_wide.take() {
-                Some(w) => cx.out.push(format!("?={w}")),
-                None => cx.out.push(format!("?={}", cx.status)),
-            }
+            cx.out.push(format!("?={}", cx.status));
             cx.status = 0;
         }
         N::Pipe { neg, first, rest } => {
             let mut c0 = cx.child();
             eval_block(first, &mut c0);
             let mut data = c0.out;
-            let mut statuses = vec![c0.status];
+            let mut statuses: Vec<u32> = vec![c0.status];
             for (xf, tail) in rest {
                 let mut c = cx.child();
                 match xf {
@@ -537,7 +586,7 @@ fn eval(n: &N, cx: &mut Ctx) {
             let mut c = cx.child();
             eval_block(body, &mut c);
             cx.out.extend(c.out);
-            cx.status = exit.unwrap_or(c.status);
+            cx.status = exit.map_or(c.status, |e| e as u32);
         }
         N::Cs { var, body } => {
             let mut c = cx.child();
@@ -571,7 +620,7 @@ fn eval(n: &N, cx: &mut Ctx) {
         N::Wait(W::Pid(id)) => match cx.jobs.get_mut(id) {
             Some(j) if j.known => {
                 j.known = false;
-                cx.status = j.exit;
+                cx.status = j.exit as u32;
                 cx.unwaited.remove(id);
             }
             _ => cx.status = 127,
@@ -592,7 +641,7 @@ fn eval(n: &N, cx: &mut Ctx) {
                     Some(id) => match cx.jobs.get_mut(id) {
                         Some(j) if j.known => {
                             j.known = false;
-                            cx.status = j.exit;
+                            cx.status = j.exit as u32;
                             cx.unwaited.remove(id);
                         }
                         _ => cx.status = 127,
@@ -612,14 +661,17 @@ fn eval(n: &N, cx: &mut Ctx) {
                 cx.status = 0;
                 eval_block(then, cx);
             } else if !els.is_empty() {
-                cx.status = *cond;
+                cx.status = *cond as u32;
                 eval_block(els, cx);
             } else {
                 cx.status = 0;
             }
         }
         N::For { n, body } => {
-            cx.status = 0;
+            // ($? inside the first iteration is still that of the previous command)
+            if *n == 0 {
+                cx.status = 0;
+            }
             for _ in 0..*n {
                 eval_block(body, cx);
             }
@@ -632,17 +684,40 @@ fn eval(n: &N, cx: &mut Ctx) {
             let body = cx.funcs.get(f).cloned().unwrap_or_default();
             eval_block(&body, cx);
         }
+        N::Nap(_) => cx.status = 0,
+        N::SelfKill { kind, sig, word } => {
+            match kind {
+                0 => {
+                    cx.out.push(word.clone());
+                    cx.status = 384 + *sig as u32;
+                }
+                1 => {
+                    cx.out.push(format!("sk=[{word}]"));
+                    cx.status = 384 + *sig as u32;
+                }
+                _ => {
+                    // the killed stage is not the last one: status of relay (0),
+                    // or the stage's status under pipefail
+                    cx.out.push(word.clone());
+                    cx.status = if cx.pipefail { 384 + *sig as u32 } else { 0 };
+                }
+            }
+        }
+        N::BgPipe { word, status, .. } => {
+            cx.out.push(format!("?={status}"));
+            cx.out.push(word.clone());
+            cx.status = 0;
+        }
         N::Killed { sig, .. } => {
             // a job killed by signal n reports 384 + n
-            cx.status_wide = Some(384 + *sig as u32);
-            cx.status = 0;
+            cx.status = 384 + *sig as u32;
         }
     }
 }
 
 pub struct Expect {
     pub stdout: String,
-    pub status: u8,
+    pub status: u32,
     pub unwaited: BTreeSet<u32>,
 }
 
